@@ -295,10 +295,14 @@ def rule_defwrite(ctx: Ctx):
     g = callgraph(ctx)
     roots = [ctx.fn(k) for k in ("StateMachine.__init__", "StateMachine.__setstate__", "StateMachine.send", "Event.__call__", "StateMachine.add_listener",
                                  "StateMachine.activate_initial_state", "StateMachine.bind_events_to", "StateMachine.__getstate__")]
-    for nm in ("current_state", "current_state_value", "allowed_events", "events"):
+    for nm in ("current_state", "current_state_value", "allowed_events", "events", "_graph", "_repr_svg_", "_repr_html_"):
         f = ctx.p.find_fn(f"StateMachine.{nm}")
         if f is not None:
             roots.append(f)
+    # rendering a diagram (of an instance or of the class) must not touch the definitions either
+    for c_ in ctx.p.classes.values():
+        if c_.module.rel.endswith("contrib/diagram.py"):
+            roots.extend(m for ms in c_.methods.values() for m in ms)
     # reachability that does not descend into constructors of definition classes: what they build is a
     # fresh object (e.g. the initial pseudo-transition), not a shared definition
     reach = set()
@@ -318,6 +322,17 @@ def rule_defwrite(ctx: Ctx):
     n_w = 0
     for fn in sorted(reach, key=lambda f: f.key):
         ctor_of_def = fn.cls is not None and fn.cls.name in DEFINITION_CLASSES and fn.name in ("__init__", "__new__", "__post_init__")
+        # locals that name (a container of) a definition object by reference: `ts = state.transitions.transitions`
+        def_alias = {}
+        for n in own_nodes(fn.node):
+            if isinstance(n, ast.Assign) and len(n.targets) == 1 and isinstance(n.targets[0], ast.Name) and isinstance(n.value, ast.Attribute):
+                chain = n.value
+                owners = set()
+                while isinstance(chain, ast.Attribute):
+                    owners |= ctx.r.typeof(chain.value, fn, ()) & DEFINITION_CLASSES
+                    chain = chain.value
+                if owners:
+                    def_alias[n.targets[0].id] = (owners, show(n.value))
         for n in own_nodes(fn.node):
             tgt = None
             if isinstance(n, ast.Attribute) and isinstance(n.ctx, (ast.Store, ast.Del)):
@@ -334,9 +349,11 @@ def rule_defwrite(ctx: Ctx):
             if isinstance(tgt, ast.Attribute):
                 owner_types |= ctx.r.typeof(tgt.value, fn, ())
             hit = owner_types & DEFINITION_CLASSES
+            if not hit and isinstance(tgt, ast.Name) and tgt.id in def_alias and isinstance(n, ast.Call):
+                hit = def_alias[tgt.id][0]  # mutation through a local alias of the definition's own container
             if not hit:
                 continue
-            recv = show(tgt)
+            recv = show(tgt) if not (isinstance(tgt, ast.Name) and tgt.id in def_alias) else def_alias[tgt.id][1]
             if recv == "self" or recv.startswith("self."):
                 # methods of definition classes mutating themselves: allowed only in constructors of fresh objects,
                 # or in methods that are not reachable on an *existing* definition (checked through the caller)
@@ -422,4 +439,13 @@ def _caller_passes_fresh(ctx: Ctx, caller: FuncInfo, node: ast.AST, callee: Func
     return False
 
 
-RULES = [rule_inventory, rule_cachekey, rule_fresh, rule_inherit, rule_defwrite]
+def rule_own_arguments(ctx: Ctx):
+    """C16.args: the machine/model/event/source/target a callback receives are those of the machine that runs it; reserved
+    names forwarded from another machine's callback (`other.start(**kwargs)`) never replace them."""
+    from . import c07
+
+    c07.rule_reserved(ctx, rule="C16.args")
+    c07.rule_layer(ctx, rule="C16.args")
+
+
+RULES = [rule_inventory, rule_cachekey, rule_fresh, rule_inherit, rule_defwrite, rule_own_arguments]
